@@ -5,7 +5,7 @@ P(t, c, up, segs) == [text |-> t, class |-> c, up |-> up, segs |-> segs]
 Shapes == { P("./x", "rel", 0, <<"x">>), P("x/y", "rel", 0, <<"x", "y">>), P("../x", "rel", 1, <<"x">>), P(".", "rel", 0, <<>>),
             P("./a/../b", "rel", 0, <<"b">>), P("./vendor/github.com/acme/tool", "rel", 0, <<"vendor", "github.com", "acme", "tool">>),
             P("checkouts/git@work/app", "rel", 0, <<"checkouts", "git@work", "app">>), P("mirror/https/x", "rel", 0, <<"mirror", "https", "x">>), P("../../z", "rel", 2, <<"z">>),
-            P("/abs/dir", "abs", 0, <<>>), P("~/x", "home", 0, <<"x">>), P("~", "home", 0, <<>>),
+            P("/abs/dir", "abs", 0, <<>>), P("/abs/dir/", "abs", 0, <<>>), P("/abs/a/../b", "abs", 0, <<>>), P("/abs//x/./y", "abs", 0, <<>>), P("~/x", "home", 0, <<"x">>), P("~", "home", 0, <<>>),
             P("C:\\x", "winabs", 0, <<>>), P("c:/data", "winabs", 0, <<>>), P("\\\\srv\\share\\d", "unc", 0, <<>>), P("\\\\srv\\share", "unc", 0, <<>>),
             P("https://example.com/r.git", "remote", 0, <<>>), P("git@github.com:o/r.git", "remote", 0, <<>>), P("github.com/o/r", "remote", 0, <<>>),
             P("docker-image://img:1", "url", 0, <<>>), P("oci-layout://./x", "url", 0, <<>>) }
